@@ -1,17 +1,18 @@
 (* Property C05 -- statements only.  (a) any segmentation, (b) any retransmitted duplicates, and any interleaving of the two
-   directions deliver to the record handler exactly the records of each endpoint's byte stream.  Reordering (c) and
-   sequence-number wrap (d) are NOT theorems of the current code: see known_findings.json and DESIGN.md. *)
+   directions deliver to the record handler exactly the records of each endpoint's byte stream -- (d) from any initial sequence
+   number, the stream running across 2^32 included.  (c) reordering: see C05_reordering. *)
 From Coq Require Import ZArith List Bool.
 From Coq Require String.
 Require Import PyLib SuiteTypes Crypto KeySchedule Packet Reassembly Decryptor TlsSession ReasmP SessionP C05P.
 Import ListNotations.
 Open Scope Z_scope.
 
-(* per direction: chunks = the stream cut anywhere into non-empty segments with consecutive sequence numbers;
+(* per direction: chunks = the stream cut anywhere into non-empty segments with consecutive sequence numbers MODULO 2^32, from any
+   initial sequence number (in_order isn: the k-th segment carries (isn + offset) mod 2^32; the stream is shorter than 2^31 bytes);
    arrivals = chunks with copies of already-seen segments inserted anywhere; R = the records (each well framed) *)
 Theorem C05_segmentation_and_duplicates : forall isn chunks arrivals R,
-  in_order isn chunks -> with_dups chunks arrivals -> Forall wf_rec R -> data chunks = concat R ->
-  exists recs, feed [] (snd (fold_left accept arrivals ([], []))) = Ok ([], recs) /\ map r_raw recs = R.
+  in_order isn chunks -> len (data chunks) < 2147483648 -> with_dups chunks arrivals -> Forall wf_rec R -> data chunks = concat R ->
+  exists n' recs, feed None [] (snd (fold_left accept arrivals ([], []))) = Ok (n', [], recs) /\ map r_raw recs = R.
 Proof. exact segmentation_and_duplicates_deliver. Qed.
 Print Assumptions C05_segmentation_and_duplicates.
 
@@ -25,13 +26,14 @@ Print Assumptions C05_session_dedupe.
 (* decrypt(): the handler is handed exactly the extraction trace, in order ... *)
 Theorem C05_handler_sees_trace : forall C tbl parts keylog sip sport ps st st',
   get_tls_records C tbl parts keylog sip sport st ps = Ok st' ->
-  exists tr em, gtr_trace sip sport (rs_server_pbuf st) (rs_client_pbuf st) ps = Ok (rs_server_pbuf st', rs_client_pbuf st', tr) /\
+  exists tr em, gtr_trace sip sport (xof st) ps = Ok (xof st', tr) /\
              handle_trace C tbl parts keylog (rs_core st) tr = Ok (rs_core st', em) /\ rs_traffic st' = rs_traffic st ++ em.
 Proof. exact gtr_is_trace. Qed.
 Print Assumptions C05_handler_sees_trace.
 
 (* ... and each direction's part of the trace is what that direction's packets alone produce: interleaving is irrelevant *)
-Theorem C05_directions_independent : forall sip sport ps sb cb sb' cb' tr, gtr_trace sip sport sb cb ps = Ok (sb', cb', tr) ->
-  feed sb (dir sip sport true ps) = Ok (sb', side true tr) /\ feed cb (dir sip sport false ps) = Ok (cb', side false tr).
+Theorem C05_directions_independent : forall sip sport ps x x' tr, gtr_trace sip sport x ps = Ok (x', tr) ->
+  feed (x_sn x) (x_sb x) (dir sip sport true ps) = Ok (x_sn x', x_sb x', side true tr) /\
+  feed (x_cn x) (x_cb x) (dir sip sport false ps) = Ok (x_cn x', x_cb x', side false tr).
 Proof. exact trace_per_direction. Qed.
 Print Assumptions C05_directions_independent.
